@@ -1,5 +1,6 @@
 import D3.Properties.C05
 import D3.Gen.Link05
+import D3.Properties.C05Insert
 #print axioms D3.C05.query_exact
 #print axioms D3.C05.query_tree_exact
 #print axioms D3.C05.empty_query_ok
@@ -14,3 +15,24 @@ import D3.Gen.Link05
 #print axioms D3.Gen.K05.aabb_overlap_link
 #print axioms D3.Gen.K05.merge_aabb_link
 #print axioms D3.Gen.K05.aabb_volume_link
+#print axioms D3.C05Insert.insertLeaf_refines
+#print axioms D3.C05Insert.insertLeaf_refines_checked
+#print axioms D3.C05Insert.insertLeaf_refines_empty
+#print axioms D3.C05Insert.insertMany_refines
+#print axioms D3.C05Insert.insertMany_refines_empty
+#print axioms D3.C05Insert.history_wf
+#print axioms D3.C05Insert.history_query_exact
+#print axioms D3.C05Insert.history_wf_asIs
+#print axioms D3.Aabb.rd_upd
+#print axioms D3.Aabb.descend_eq
+#print axioms D3.Aabb.fixUpward_graft
+#print axioms D3.Aabb.insertLeaf_exec
+#print axioms D3.Aabb.relink5_relinked
+#print axioms D3.Aabb.graft_rep
+#print axioms D3.Aabb.insertLeaf_refines_struct
+#print axioms D3.Aabb.insertLeaf_empty_struct
+#print axioms D3.Aabb.wfCheck_complete
+#print axioms D3.Aabb.argsortLo0_perm
+#print axioms D3.Aabb.insertAabbs_step
+#print axioms D3.Aabb.history_from
+#print axioms D3.Aabb.insertPreB_sound
